@@ -123,3 +123,136 @@ def observe(job, root, state_entries, out):
         return {"pddl": NumericalExpressionTree(root2).to_pddl(), "calc": attempt(lambda: fhex(calculate(root2)))}
     out["re"] = attempt(reread)
     return out
+
+
+# ---------------------------------------------------------------------------------------------------------------
+# actions with SEVERAL numeric effects (one Operator, forced orders of the effect groups and of the numeric effects
+# inside every group, the same Operator applied again to its own successor)
+# ---------------------------------------------------------------------------------------------------------------
+def _fluent_rows(state):
+    rows = []
+    for key, f in state.state_fluents.items():
+        if key != f.untyped_representation:
+            raise ValueError("state key %r holds the fluent %r" % (key, f.untyped_representation))
+        rows.append([f.name, list(f.signature), fhex(f.value)])
+    return rows
+
+
+def _observe_state(state):
+    import ops_core
+    facts = ops_core.read_state_text(state.serialize())["facts"]
+    return {"facts": facts, "fluents": _fluent_rows(state)}
+
+
+def actions_world(job):
+    """job: domain_text, problem_text (objects; every fluent initialised), probes [{action, args, facts [[p, args]],
+    fluents [[name, args, hex]], group_seed, num_orders [[...] per group, by sorted text of the effect] | None, steps}].
+    Every probe: ONE Operator object; is_applicable and apply on the state, then (steps - 1 times) apply again on the
+    successor it returned.  Returns for every step the state it was given and what apply returned."""
+    import random
+    import ops_core
+    from pddl_plus_parser.lisp_parsers import DomainParser, ProblemParser
+    from pddl_plus_parser.models import Operator, State
+
+    out = {"nums": ops_core.number_table(job["domain_text"]), "eps": fhex(NE.EPSILON)}
+    dpath = ops_core.write_tmp(job["domain_text"], ".pddl")
+    ppath = ops_core.write_tmp(job["problem_text"], ".pddl")
+    try:
+        try:
+            domain = DomainParser(dpath).parse_domain()
+            out["vocab"] = ops_core.vocab(domain)
+        except Exception as e:  # noqa
+            out["parse_raised"] = ops_core.exc(e)
+            return out
+        problem = ProblemParser(ppath, domain).parse_problem()
+        template_facts = problem.initial_state_predicates
+        template_fluents = problem.initial_state_fluents
+        res = []
+        for pr in job["probes"]:
+            res.append(_run_action_probe(domain, problem, template_facts, template_fluents, pr))
+        out["probes"] = res
+        return out
+    finally:
+        dpath.unlink()
+        ppath.unlink()
+
+
+def _mk_state(domain, problem, template_facts, template_fluents, facts, fluents):
+    """a State holding exactly the given facts and fluent values (values bit-exact, from hex); the objects are copies of
+    those the problem parser made for a problem whose :init lists every ground fact and fluent"""
+    from pddl_plus_parser.models import State
+    wanted = {"(%s %s)" % (name, " ".join(args)) for name, args in facts}
+    preds, found = {}, set()
+    for key, group in template_facts.items():
+        keep = {p.copy() for p in group if p.untyped_representation in wanted}
+        found |= {p.untyped_representation for p in keep}
+        if keep:
+            preds[key] = keep
+    if found != wanted:
+        raise KeyError("facts not in the template problem: %r" % sorted(wanted - found))
+    fl = {}
+    for name, args, hx in fluents:
+        key = "(%s %s)" % (name, " ".join(args))
+        f = template_fluents[key].copy()
+        f.set_value(float.fromhex(hx))
+        fl[key] = f
+    return State(preds, fl, is_init=False)
+
+
+def _run_action_probe(domain, problem, template_facts, template_fluents, pr):
+    import random
+    import ops_core
+    from pddl_plus_parser.models import Operator
+    steps = []
+    try:
+        state = _mk_state(domain, problem, template_facts, template_fluents, pr["facts"], pr["fluents"])
+        op = Operator(domain.actions[pr["action"]], domain, list(pr["args"]), problem.objects)
+        op.ground()
+        groups = list(op.grounded_effects)
+        # canonical numbering of the groups: unconditional first, then by the text of their antecedents and effects
+        def gkey(g):
+            return (g.grounded_antecedents is not None,
+                    sorted(e.to_pddl() for e in g.grounded_numeric_effects),
+                    sorted(p.untyped_representation for p in g.grounded_discrete_effects))
+        groups.sort(key=gkey)
+        rnd = random.Random(pr.get("group_seed", 0))
+        order = list(range(len(groups)))
+        if pr.get("group_seed", 0):
+            rnd.shuffle(order)
+        univ = list(op.lifted_universal_effects)
+        if pr.get("group_seed", 0):
+            rnd.shuffle(univ)
+        op.grounded_effects = ops_core.ForcedOrder([groups[i] for i in order])
+        op.lifted_universal_effects = ops_core.ForcedOrder(univ)
+        mode = pr.get("num_order")            # None: the library's own set order; "sorted" / "reversed" / int seed
+        if mode is not None:
+            for g in groups:
+                effs = sorted(g.grounded_numeric_effects, key=lambda e: e.to_pddl())
+                if mode == "reversed":
+                    effs.reverse()
+                elif mode != "sorted":
+                    random.Random(mode).shuffle(effs)
+                g.grounded_numeric_effects = ops_core.ForcedOrder(effs)
+        ngroups, nuniv = len(groups), len(univ)
+    except Exception as e:  # noqa
+        return {"setup_raised": ops_core.exc(e)}
+    for k in range(pr.get("steps", 1)):
+        st = {"state": _observe_state(state)}
+        try:
+            st["app"] = {"value": bool(op.is_applicable(state))}
+        except Exception as e:  # noqa
+            st["app"] = ops_core.exc(e)
+        before = _observe_state(state)
+        try:
+            nxt = op.apply(state)
+            st["succ"] = {"value": _observe_state(nxt)}
+        except Exception as e:  # noqa
+            st["succ"] = ops_core.exc(e)
+            nxt = None
+        # the state handed in is still what it was (values and keys)
+        st["input_unchanged"] = _observe_state(state) == before
+        steps.append(st)
+        if nxt is None:
+            break
+        state = nxt
+    return {"steps": steps, "ngroups": ngroups, "nuniv": nuniv}
